@@ -330,16 +330,6 @@ class SR:
     def __pos__(self):
         return self
 
-    def __index__(self):
-        """a symbolic count used as an index or slice bound: one path per feasible integer value"""
-        t = z3.simplify(self.t)
-        if z3.is_rational_value(t) and t.denominator_as_long() == 1:
-            return t.numerator_as_long()
-        for k in range(0, 257):
-            if bool(self == k):
-                return k
-        raise HarnessError("symbolic index outside 0..256 or not an integer")
-
     def __mod__(self, o):
         return _e_mod(self, o)
 
@@ -893,9 +883,27 @@ class SymArray(np.ndarray):
         return SymArray._fix_key1(key)
 
     @staticmethod
+    def _sym_index(v):
+        """a symbolic count used as an index or slice bound: one path per feasible integer value (0..256).
+        (SR deliberately has no __index__: numpy would call it whenever an SR meets a numpy scalar.)"""
+        if not isinstance(v, SR):
+            return v
+        t = z3.simplify(v.t)
+        if z3.is_rational_value(t) and t.denominator_as_long() == 1:
+            return t.numerator_as_long()
+        for k in range(0, 257):
+            if bool(v == k):
+                return k
+        raise HarnessError("symbolic index outside 0..256 or not an integer")
+
+    @staticmethod
     def _fix_key1(k):
         if isinstance(k, SB):
             return bool(k)
+        if isinstance(k, SR):
+            return SymArray._sym_index(k)
+        if isinstance(k, slice) and any(isinstance(v, SR) for v in (k.start, k.stop, k.step)):
+            return slice(SymArray._sym_index(k.start), SymArray._sym_index(k.stop), SymArray._sym_index(k.step))
         if isinstance(k, np.ndarray):
             if _is_boolish_obj(k):
                 return _force_mask(k)
